@@ -95,7 +95,7 @@ P = {
             'denominations (reference evaluation of the stored schedule); if it succeeds otherwise the discarded schedule stays an '
             'obligation (tracked delegation continued by the SDK rules) that every later transaction is checked against, reported '
             'separately; the Coq model (kind, funder, convert guard from the schedule) is evaluated on the same histories incl. refused '
-            'operations; after a successful merge (create with Merge, or convert-into with Merge) the merged vesting and lockup schedules are compared with the account before plus the grant AS SIGNED at every event time (own step-function reader): a merge that alters the grant's schedules is reported even when the stored schedule is self-consistent; non-trivial = at least one successful spend and three successful spends/delegations; distinct = distinct inputs',
+            'operations; after a successful merge (create with Merge, or convert-into with Merge) the merged vesting and lockup schedules are compared with the account before plus the grant AS SIGNED at every event time (own step-function reader): a merge that alters the schedules of the grant is reported even when the stored schedule is self-consistent; non-trivial = at least one successful spend and three successful spends/delegations; distinct = distinct inputs',
     'trusted_base': [
         'Coq 8.16.1 kernel incl. vm_compute (no native_compute)',
         'axioms: none (Print Assumptions: closed under the global context for every theorem of Props/C08.v)',
